@@ -367,7 +367,9 @@ class TransformedPrior(Prior):
         if size is None:
             repeat = lambda x: x
         else:
-            repeat = lambda x: np.repeat(x, size)
+            # (the constant as it is, once per draw: np.repeat would flatten
+            # an array-valued constant into its elements)
+            repeat = lambda x: [x] * size
         # one draw per prior object, however often it occurs in the expression
         memo = {} if _memo is None else _memo
 
